@@ -27,14 +27,16 @@ func init() {
 				if c.Tier != "thorough" && os.Getenv("VERIF_ONLY") == "" {
 					continue
 				}
-				for sh := int64(0); sh < 2; sh++ {
-					cfgs = append(cfgs, &HarnessCfg{Name: "VerifC06_Step", Pkg: pebPkg, Solver: "z3", Params: map[string]int64{"pre": 1, "lookup": lk, "shape": sh, "fixedids": 1}, MaxPaths: 2000000})
-				}
+				// (one pool shape: the second one doubles the eight minutes without touching other code)
+				cfgs = append(cfgs, &HarnessCfg{Name: "VerifC06_Step", Pkg: pebPkg, Solver: "z3", Params: map[string]int64{"pre": 1, "lookup": lk, "shape": 0, "fixedids": 1}, MaxPaths: 2000000})
 				continue
 			}
 			pp := pre
-			if lk == 2 {
-				pp = 1 // the entropy-range lookup multiplies case splits: one pre-existing signature in both tiers
+			if lk == 2 || lk == 4 {
+				// the entropy-range and statistics lookups multiply case splits: one pre-existing signature in
+				// both tiers (statistics with two did not finish in 15 minutes; the index-entry family 5 covers
+				// the two-signature states)
+				pp = 1
 			}
 			cfgs = append(cfgs, &HarnessCfg{Name: "VerifC06_Step", Pkg: pebPkg, Solver: "z3", Params: map[string]int64{"pre": pp, "lookup": lk}, MaxPaths: 2000000})
 		}
@@ -50,7 +52,7 @@ func init() {
 		c.Assumptions = append(c.Assumptions, pebbleAssumptions...)
 		c.Assumptions = append(c.Assumptions,
 			"states: every store reachable by adding up to 2 signatures (IDs: arbitrary printable strings of 1-2 bytes, so separators and prefix relations between IDs are covered; hashes from a pool of 2+2 shapes; entropy from a pool of six values incl. neighbours of 5.0; tolerance 0 or 0.5), followed by one arbitrary mutation from {add/update, batch add with repeated IDs, delete, false-positive mark, rebuild, none}",
-			"lookups compared with brute force after the step: by ID, by topology hash, count, listing, entropy range [0.5,5], index statistics, the entries of the exact-hash and fuzzy indexes as the scans decode them (key, ID, packed entropy score and tolerance of the current version); thorough tier also the candidate scan itself for both pool shapes (fixed IDs)",
+			"lookups compared with brute force after the step: by ID, by topology hash, count, listing, entropy range [0.5,5], index statistics, the entries of the exact-hash and fuzzy indexes as the scans decode them (key, ID, packed entropy score and tolerance of the current version); thorough tier also the candidate scan itself for one pool shape (fixed IDs)",
 			"more than 2 live signatures, hashes containing ':', and close/reopen cycles are outside this bound")
 		c.runModeT([]string{"pkg/storage/pebbledb"}, cfgs)
 	}
